@@ -146,11 +146,12 @@ class Assembler:
         return self.files[rel]
 
     # ------------------------------------------------------------------
-    def assemble(self, unit_rel, defines=None, vacuity=False, degrade=None):
+    def assemble(self, unit_rel, defines=None, vacuity=False, degrade=None, extra_items=None):
         """Returns dict(text, linemap, fns, rewrites, items, hashes, defines)."""
         self.defines = dict(defines or {})
         self.vacuity = vacuity
         self.degrade = set(degrade or [])
+        self.extra_items = list(extra_items or [])
         self.chunks = []
         self.callee = 0
         self.meta = dict(fns={}, callees={}, degraded={}, rewrites=[], items=[], hashes={}, defines={}, unit=unit_rel)
@@ -205,6 +206,13 @@ class Assembler:
                 arg = d[1] if len(d) > 1 else ''
                 if cmd == 'include':
                     a = arg.split()
+                    if a[0] == 'prelude/tail.rs' and self.extra_items:
+                        # constants the repository introduced after the contracts were written and that an extracted function now names:
+                        # copied verbatim (a constant is transparent to the verifier), recorded as a rewrite of kind auto-imported-const
+                        for (f_, kind_, name_) in self.extra_items:
+                            self.meta['rewrites'].append(dict(kind='auto-imported-const', where='%s::%s' % (f_, name_)))
+                            self._item('(auto)', 0, '%s %s %s' % (f_, kind_, name_), [])
+                        self.extra_items = []
                     if len(a) == 3 and a[1] == 'as' and a[2] == 'callee':
                         # contracts proved in their home unit; here only the contract is visible (modular verification)
                         self.callee += 1
@@ -453,6 +461,61 @@ class Assembler:
                 tags.update(t['props'])
         self.meta['degraded'][key0] = dict(key=key0, reason=reason, props=sorted(tags), contract=dict(file=rel, line=lineno))
 
+
+    @staticmethod
+    def _param_names(ct, it):
+        """identifier bound by each parameter of the fn (excluding any `self` receiver), with the token index of that identifier"""
+        i = it['tok_kw'] + 2  # after `fn name`
+        if ct[i].text == '<':
+            depth = 0
+            while True:
+                if ct[i].text == '<':
+                    depth += 1
+                elif ct[i].text == '>':
+                    depth -= 1
+                    if depth == 0:
+                        i += 1
+                        break
+                elif ct[i].text == '->':
+                    pass
+                i += 1
+        if ct[i].text != '(':
+            return None
+        close = match_close(ct, i)
+        out = []
+        j = i + 1
+        start = j
+        depth = 0
+        segs = []
+        while j <= close:
+            t = ct[j].text
+            if j == close or (t == ',' and depth == 0):
+                if j > start:
+                    segs.append((start, j))
+                start = j + 1
+            elif t in ('(', '[', '{', '<'):
+                depth += 1
+            elif t in (')', ']', '}', '>'):
+                depth -= 1
+            j += 1
+        for (a, b) in segs:
+            toks = [k for k in range(a, b)]
+            # up to the first top-level ':'
+            k = a
+            name_tok = None
+            while k < b and ct[k].text != ':':
+                if ct[k].kind == 'ident' and ct[k].text not in ('mut', 'ref'):
+                    name_tok = k
+                k += 1
+            if name_tok is None:
+                return None
+            if ct[name_tok].text == 'self':
+                continue
+            if k >= b:
+                return None  # no ':' (cannot happen for non-self parameters)
+            out.append((ct[name_tok].text, name_tok))
+        return out
+
     def _fn_inner(self, rel, lineno, arg, block):
         f, locator = arg.split(None, 1)
         sf = self.source(f)
@@ -527,6 +590,22 @@ class Assembler:
                 hide_utf8 = True  # opt-in (hiding a function that the pruned query does not mention crashes this Verus)
             elif cmd == 'props':
                 props.extend(sarg.split())
+            elif cmd == 'params':
+                # the names the contract uses for the parameters, by position. If the repository renamed a parameter, the identifier is
+                # alpha-renamed inside this function's text (a declared, semantics-preserving rewrite) so the contract still binds.
+                want = sarg.split()
+                have = self._param_names(ct, it)
+                if have is None or len(have) != len(want):
+                    raise LostAnchor('%s:%d: fn %s has parameters %s, contract names %s' % (rel, no, short, None if have is None else [h[0] for h in have], want))
+                ren = {h[0]: w for (h, w) in zip(have, want) if h[0] != w}
+                if ren:
+                    if set(ren.values()) & set(h[0] for h in have if h[0] not in ren):
+                        raise LostAnchor('%s:%d: fn %s: parameter renaming would clash (%s)' % (rel, no, short, ren))
+                    for k in range(it['tok_kw'], it['tok_end'] + 1):
+                        t = ct[k]
+                        if t.kind == 'ident' and t.text in ren and ct[k - 1].text not in ('.', '::'):
+                            edits.append((t.start, t.end, ren[t.text], 'rewrite'))
+                    self.meta['rewrites'].append(dict(kind='param-alpha-rename', where=what, renamed=ren))
             elif cmd == 'attr':
                 if self.vacuity and 'rlimit' in sarg:
                     continue  # the vacuity twin is expected to fail: keep the small command-line resource limit
